@@ -274,7 +274,43 @@ func stmtFact(st ast.Stmt, consts map[string]string) []string {
 			calls = append(calls, "else")
 			calls = append(calls, callees(x.Else)...)
 		}
-		return []string{mk("SIf", targets, conds, calls, endsWithReturn(x.Body), "[]")}
+		// order of calls and error checks inside the body
+		var seq []string
+		for _, bs := range x.Body.List {
+			switch y := bs.(type) {
+			case *ast.AssignStmt:
+				for _, r := range y.Rhs {
+					for _, c := range callees(r) {
+						seq = append(seq, "call:"+c)
+					}
+				}
+			case *ast.IfStmt:
+				if condStr(y.Cond) == "err!=nil" && endsWithReturn(y.Body) {
+					pre := ""
+					if y.Init != nil {
+						for _, c := range callees(y.Init) {
+							seq = append(seq, "call:"+c)
+						}
+					}
+					seq = append(seq, pre+"iferr-return")
+				} else {
+					seq = append(seq, "if:"+condStr(y.Cond))
+				}
+			case *ast.ReturnStmt:
+				seq = append(seq, "return")
+			case *ast.ExprStmt:
+				for _, c := range callees(y) {
+					seq = append(seq, "call:"+c)
+				}
+			default:
+				seq = append(seq, "stmt")
+			}
+		}
+		extra := "[]"
+		if len(seq) > 0 {
+			extra = "[(" + coqStrList([]string{"body"}) + ", " + coqStrList(seq) + ")]"
+		}
+		return []string{mk("SIf", targets, conds, calls, endsWithReturn(x.Body), extra)}
 	case *ast.ExprStmt:
 		return []string{mk("SExpr", nil, nil, callees(x), false, "[]")}
 	case *ast.ReturnStmt:
